@@ -2,7 +2,7 @@ use vcore::front::{self, Project};
 fn main() {
   let seed0: u64 = std::env::args().nth(1).and_then(|s| s.parse().ok()).unwrap_or(1);
   let mut bad = 0;
-  for seed in seed0..seed0 + 200 {
+  for seed in seed0..seed0 + 400 {
     let mut rng = vcore::rng::Rng::new(seed);
     let t = vcore::exprgen::binder_zoo(&mut rng);
     let p = Project::single("Zoo", &t).with_std();
@@ -10,7 +10,7 @@ fn main() {
     let c = front::check_project(&mut heap, &p);
     if c.errors.has_errors() {
       bad += 1;
-      if bad <= 3 {
+      if bad <= 2 {
         println!("{t}");
         for e in c.errors.errors().iter().take(4) {
           println!("// {}: {}", e.location.pretty_print(&heap), e.to_ide_format(&heap, &c.handles).ide_error);
@@ -18,5 +18,5 @@ fn main() {
       }
     }
   }
-  println!("rejected {bad} of 200");
+  println!("rejected {bad} of 400");
 }
